@@ -1,18 +1,22 @@
 """Rule registry and the property -> rules table (DESIGN.md sections 3 and 4)."""
 from __future__ import annotations
 
-from .rules import dp, decode, cost, serial
+from .rules import dp, decode, cost, serial, utils, geom
 
 RULES = {}
 RULES.update(dp.RULES)
 RULES.update(decode.RULES)
 RULES.update(cost.RULES)
 RULES.update(serial.RULES)
+RULES.update(utils.RULES)
+RULES.update(geom.RULES)
 
 PROPERTY_RULES = {
     "T00": list(decode.RULES),
     "T01": list(cost.RULES),
     "T02": list(serial.RULES),
+    "T03": list(utils.RULES),
+    "T04": list(geom.RULES),
     "C16": ["UPDATE-PAIRING", "RETENTION-GUARDS", "POLARITY", "PROXY-NONE", "COMBINE-PRODUCT"],
 }
 
